@@ -141,7 +141,20 @@ def build(seed):
     e = rng.choice(EXPRS)
     L += [f"subroutine {ib}(arr, s)", "!! iface doc", "import :: ka, kb", f"real, intent(in) :: arr({e})", "!! arr doc", f"character(len=*), intent(in), optional :: s", "!! s doc", f"end subroutine {ib}", "end interface"]
     checks.append({"page": f"interface/{ib}.html", "fragment": e, "where": "interface_arg_dimension_expr"})
+    # a module variable that a dummy argument of a procedure below hides
+    shv = nm("hv")
+    shl = lit(f"<i>host{sx}</i> & \\ shadowed")
+    L += [f"character(len=30) :: {shv} = {shl}", f"!! doc of {shv}"]
+    checks.append({"page": mpage, "fragment": shl, "where": "initial_literal"})
     L.append("contains")
+    # dummy arguments: OPTIONAL without INTENT (data object and dummy procedure); a namelist whose member is the dummy argument that hides the module variable
+    ps, wa, cba, nls = nm("hs"), nm("hw"), nm("hk"), nm("hn")
+    L += [f"subroutine {ps}({shv}, {wa}, {cba}, n)", "!! proc doc", f"integer, intent(in) :: {shv}", "!! hiding dummy doc", f"real, optional, dimension(n) :: {wa}", "!! w doc",
+          f"procedure({ib}), optional :: {cba}", "!! cb doc", "integer :: n", "!! n doc", f"namelist /{nls}/ {shv}", "!! namelist doc", f"end subroutine {ps}"]
+    checks.append({"page": f"proc/{ps}.html", "fragment": f"real, optional, dimension(n) :: {wa}", "where": "optional_without_intent"})
+    checks.append({"page": f"proc/{ps}.html", "fragment": f"procedure({ib}), optional :: {cba}", "where": "optional_dummy_procedure"})
+    checks.append({"page": f"namelist/{nls}.html", "fragment": "integer", "where": "namelist_member_is_dummy_argument"})
+    checks.append({"page": f"namelist/{nls}.html", "fragment": f"host{sx}", "where": "namelist_member_is_dummy_argument", "absent": True})
     p = nm("hp")
     bn = rng.choice(["c_name", "a<b", "x&y", "<i>n</i>", 'q"q'])
     bl = lit(bn, "'") if '"' in bn else lit(bn)
@@ -195,6 +208,30 @@ def twin_of(lines):
     return out
 
 
+def continue_literals(lines, ref_lines, seed):
+    """Split some character literals over two source lines (`'ab &` / `&cd'`, blanks before the `&` and after the leading `&`
+    belong to the value).  The places are chosen on `ref_lines` (the hostile program) and applied to `lines` (same widths)."""
+    from vf import lexer
+
+    rng = random.Random(seed * 17 + 3)
+    out = []
+    for ln, ref in zip(lines, ref_lines):
+        if ref.startswith("!!") or ref.lstrip().lower().startswith(("namelist", "subroutine", "function")) or rng.random() > 0.35:
+            out.append(ln)
+            continue
+        marks, _ = lexer.scan(ref)
+        inner = [i for idx, (i, c, lit) in enumerate(marks) if 0 < idx < len(marks) - 1 and lit and marks[idx - 1][2] and marks[idx + 1][2]
+                 and c not in "'\"" and marks[idx - 1][1] not in "'\"" and marks[idx + 1][1] not in "'\""]
+        # prefer places next to a blank: the blank before the `&` / after the leading `&` must survive
+        pref = [i for i in inner if ref[i - 1] == " " or ref[i] == " "]
+        if not inner:
+            out.append(ln)
+            continue
+        k = rng.choice(pref or inner)
+        out.append(ln[:k] + "&\n   &" + ln[k:])
+    return out
+
+
 def run_case(item):
     return site.run_in_process(item["root"])
 
@@ -217,6 +254,9 @@ def skeleton(path):
 def case(seed):
     lines, checks = build(seed)
     tw = twin_of(lines)
+    if seed % 2:
+        tw = continue_literals(tw, lines, seed)
+        lines = continue_literals(lines, lines, seed)
     base = core.mktemp("vf_c18_")
     viol = []
     try:
@@ -273,6 +313,10 @@ def case(seed):
                 continue
             nchecks += 1
             frag = c["fragment"]
+            if c.get("absent"):
+                if frag in t:
+                    viol.append({"kf": {"kind": "declaration_of_another_entity_shown", "where": c["where"]}, "w": {"seed": seed, "check": c, "source": lines}})
+                continue
             if "literal" in c["where"] or c["where"] == "bind_name":
                 # inside a character literal blanks are significant (runs of blanks are shown as non-breaking spaces: collapse)
                 collapse = lambda x: re.sub(r"\s+", " ", x.replace("\xa0", " "))  # noqa: E731
